@@ -10,14 +10,14 @@ EXTENDS Integers, Sequences, FiniteSets, TLC, Json
 
 ListFormats == {"txt", "json", "csv", "md", "dot", "bad", ""}      \* "": flag absent (default format)
 DiffFormats == {"txt", "csv", "md", "dot", "json", ""}             \* json is not a diff format
-DirKinds == {"good", "junk", "severe", "fatal", "empty", "ingress", "admin", "missing"}
+DirKinds == {"good", "junk", "severe", "schema", "nowl", "fatal", "empty", "ingress", "admin", "missing"}
 Verb == {"", "q", "v", "qv"}                                        \* qv: -q and -v together (usage error)
 Focus == {"", "present", "absent", "nsname"}
 
 ListCfgs == {[cmd |-> "list", fmt |-> f, exposure |-> x, focus |-> fo, fail |-> fa, verb |-> v, file |-> fi, dir |-> d, dir2 |-> ""] :
                f \in ListFormats, x \in BOOLEAN, fo \in Focus, fa \in BOOLEAN, v \in Verb, fi \in BOOLEAN, d \in DirKinds}
 DiffCfgs == {[cmd |-> "diff", fmt |-> f, exposure |-> FALSE, focus |-> "", fail |-> fa, verb |-> v, file |-> fi, dir |-> d, dir2 |-> d2] :
-               f \in DiffFormats, fa \in BOOLEAN, v \in Verb, fi \in BOOLEAN, d \in DirKinds, d2 \in {"good", "severe", "fatal", "missing"}}
+               f \in DiffFormats, fa \in BOOLEAN, v \in Verb, fi \in BOOLEAN, d \in DirKinds, d2 \in {"good", "severe", "schema", "nowl", "fatal", "missing"}}
 
 (* quick tier: a reduced but still complete product (no redundant verbosity / file combinations) *)
 CONSTANT Reduced
